@@ -7,7 +7,7 @@ rm -rf "$TGT"/debug/.fingerprint/yrs-* "$TGT"/debug/.fingerprint/yffi-* 2>/dev/n
 cd "$REPO"
 export CARGO_NET_OFFLINE=true
 LD_LIBRARY_PATH=$(rustc +nightly --print sysroot)/lib \
-RUSTFLAGS="-Zmir-opt-level=0 -Awarnings" \
+RUSTFLAGS="-Zmir-opt-level=0 -Zalways-encode-mir -Awarnings" \
 RUSTC_WORKSPACE_WRAPPER=/verif/ylint/target/release/ylint \
 CARGO_TARGET_DIR="$TGT" YLINT_OUT="$OUT" YLINT_TAG="$TAG" \
 cargo +nightly check --offline "$@"
